@@ -1195,7 +1195,7 @@ def _tw_compare_nz(self, eng, st, op, a, b):
         n = st.node(a)
         res = fresh('gt', z3.ArraySort(I, B))
         k = fresh('k', I)
-        st.assume(z3.ForAll([k], res[k] == (n.a[k] > b.term), patterns=[res[k]]))
+        st.assume(z3.ForAll([k], res[k] == (n.a[k] > b.term), patterns=[res[k], n.a[k]]))
         return Result(st, st.alloc(Arr('bool', res, n.n, 'ndarray')))
     return _prev_compare_nz(self, eng, st, op, a, b)
 
@@ -1218,7 +1218,8 @@ def _tw_obj_method_nz(self, eng, st, recv, n, name, args, kwargs, node, starv=No
             s0 = s0.copy()
             arr = fresh('colnz', z3.ArraySort(I, I))
             j = fresh('j', I)
-            s0.assume(z3.ForAll([j], z3.And(arr[j] == colnz(cell, sh[0].term, j), arr[j] >= 0), patterns=[arr[j]]))
+            s0.assume(z3.ForAll([j], z3.And(arr[j] == colnz(cell, sh[0].term, j), arr[j] >= 0),
+                                patterns=[arr[j], colnz(cell, sh[0].term, j)]))
             out.append(Result(s0, s0.alloc(Arr('int', arr, sh[1].term, 'ndarray'))))
         for s1 in rest:
             y1, bad = eng.fork(s1, t == 1)
@@ -1226,7 +1227,8 @@ def _tw_obj_method_nz(self, eng, st, recv, n, name, args, kwargs, node, starv=No
                 s2 = s2.copy()
                 arr = fresh('rownz', z3.ArraySort(I, I))
                 i = fresh('i', I)
-                s2.assume(z3.ForAll([i], z3.And(arr[i] == rownz(cell, sh[1].term, i), arr[i] >= 0), patterns=[arr[i]]))
+                s2.assume(z3.ForAll([i], z3.And(arr[i] == rownz(cell, sh[1].term, i), arr[i] >= 0),
+                                    patterns=[arr[i], rownz(cell, sh[1].term, i)]))
                 out.append(Result(s2, s2.alloc(Arr('int', arr, sh[0].term, 'ndarray'))))
             for s2 in bad:
                 out.append(eng.exc(s2, 'ValueError'))
